@@ -67,7 +67,7 @@ class C01(Check):
             '(frame condition: everything else unchanged). (stop) histories of insertions / removals / add_wavelength '
             'checked for the stop and primary clauses only. Non-trivial: >=3 edits of >=2 kinds and (an interior thickness '
             'edit or an update() with >=1 pickup/solve). Distinct = distinct (spec, history) hashes.')
-    assumptions = ['pickup sets are well founded: targets distinct, a target is never a source or a solve-governed gap, '
+    assumptions = ['pickup sets are well founded (a finite-object solve only behind the stop): targets distinct, a target is never a source or a solve-governed gap, '
                    'finite non-zero source radii; solves are added in increasing surface order on lenses with an EPD '
                    'aperture and a marginal slope |u| >= 1e-3 in front of the surface',
                    'set_index is generated only where the following surface is not a mirror (the medium behind a mirror is '
@@ -202,7 +202,11 @@ class C01(Check):
             elif name == 'solve':
                 if spec['ap']['type'] != 'EPD' or any(m.dx) or any(m.dy):
                     continue
-                cand = [k for k in range(max(2, last_solve + 1), K + 2)
+                stop_idx = m.stop.index(True) if True in m.stop else 1
+                # finite object: the marginal ray is aimed at the entrance pupil, which moves with every surface up
+                # to the stop, so only surfaces behind the stop can be solved without changing the ray itself
+                first = max(2, last_solve + 1, 2 if not finite_obj else stop_idx + 1)
+                cand = [k for k in range(first, K + 2)
                         if ('thickness', k - 1) not in pick_tgts and ('thickness', k - 1) not in pick_srcs]
                 if not cand:
                     continue
